@@ -167,8 +167,63 @@ func (vc *VC) dispatch(d *callDesc) []string {
 		vc.havocH(vc.st, "$next")
 		return vc.freshResults(sig, "im")
 	}
+	if ai, ok := decoderFuncs[key]; ok && d.com != nil && ai < len(d.com.Args) && vc.curInstr != nil {
+		if a := zeroLocalTarget(vc.curInstr, d.com.Args[ai]); a != nil {
+			vc.decodeInto(a, key)
+			return vc.freshResults(sig, "ext")
+		}
+	}
 	vc.defaultExternal(d)
 	return vc.freshResults(sig, "ext")
+}
+
+// decodeInto is the summary of a decoder filling a zero-valued local variable: the variable itself and
+// freshly allocated objects are arbitrary afterwards, every object that existed before is unchanged, and
+// every reference stored in the new region is nil or fresh.
+func (vc *VC) decodeInto(a *ssa.Alloc, key string) {
+	vc.r().defaultExt[key+" (decoder summary: writes only its zero-valued target and fresh objects)"] = true
+	ref := vc.val(a)
+	el := types.Unalias(a.Type()).Underlying().(*types.Pointer).Elem()
+	hs := map[string]types.Type{}
+	reachHeapTypes(a.Type(), map[string]bool{}, hs)
+	nextOld := vc.getH(vc.st, "$next", "Int")
+	_ = el
+	var names []string
+	for h := range hs {
+		names = append(names, h)
+	}
+	sort.Strings(names)
+	type hv struct{ name, old, cur string }
+	var done []hv
+	for _, h := range names {
+		srt := vc.heapSortByName(h)
+		if srt == "" {
+			continue
+		}
+		vc.pre.heap(h, srt)
+		old := vc.getH(vc.st, h, srt)
+		vc.havocH(vc.st, h)
+		cur := vc.getH(vc.st, h, srt)
+		done = append(done, hv{h, old, cur})
+		vc.assume(fmt.Sprintf("(forall ((r Int)) (! (=> (and (< r %s) (not (= r %s))) (= (select %s r) (select %s r))) :pattern ((select %s r))))", nextOld, ref, cur, old, cur))
+	}
+	vc.havocH(vc.st, "$next")
+	for _, x := range done {
+		t := hs[x.name]
+		if t == nil {
+			continue
+		}
+		var f string
+		switch types.Unalias(t).Underlying().(type) {
+		case *types.Pointer, *types.Map:
+			f = fmt.Sprintf("(or (= (select %s r) 0) (>= (select %s r) %s))", x.cur, x.cur, nextOld)
+		case *types.Slice:
+			f = fmt.Sprintf("(or (= (s_ref (select %s r)) 0) (>= (s_ref (select %s r)) %s))", x.cur, x.cur, nextOld)
+		default:
+			continue
+		}
+		vc.assume(fmt.Sprintf("(forall ((r Int)) (! (=> (or (>= r %s) (= r %s)) %s) :pattern ((select %s r))))", nextOld, ref, f, x.cur))
+	}
 }
 
 type branchOut struct {
@@ -720,6 +775,9 @@ func (vc *VC) applyContract(c *Contract, d *callDesc) []string {
 		}
 	}
 	for _, ga := range c.Epilogue {
+		mods[ga.Var] = true
+	}
+	for _, ga := range c.Prologue {
 		mods[ga.Var] = true
 	}
 	for _, h := range sortedKeys(mods) {
